@@ -195,6 +195,15 @@ def gen_C20(rng, tier, cfg):
             "chacha new 2 xchacha20 %s %s" % (key, gens.hx(gens.struct_bytes(rng, 24))),
             "chacha seek 2 u64 %d" % (2**38 - 256), "chacha applypat 2 1024 4"]
     stats["boundary_cases"] = nb + 3
+    # equality of states / storages under this configuration (the storage `==` is backend code too)
+    xor = lambda a, b: bytes(x ^ y for x, y in zip(a, b))
+    dl = gens.correlated_row_diffs(rng)
+    for d in dl:
+        k1 = gens.struct_bytes(rng, 32)
+        n1 = gens.struct_bytes(rng, 12)
+        ops += ["guts new 0 %s %s" % (gens.hx(k1), gens.hx(n1)),
+                "guts new 1 %s %s" % (gens.hx(xor(k1[:16], d) + k1[16:]), gens.hx(n1)), "guts eq32 0 1", "guts eq64 0 1",
+                "guts new 1 %s %s" % (gens.hx(k1[:16] + xor(k1[16:], d)), gens.hx(xor(n1, d[4:16]))), "guts eq64 0 1"]
     # every VARIANT of every family under this configuration (the prefixes below need not reach all of them:
     # a seeded change that altered only BLAKE-384/512 in the no-std build slipped through the prefixes)
     ops.append("# C20 all variants under %s" % cfg)
